@@ -325,6 +325,12 @@ class Run(object):
             "counters": dict(sorted(t.counters.items())),
             "known_findings_hit": {k: t.known[k] for k in sorted(t.known)},
             "caps_hit": self.cuts,
+            "explanation": ("every transition is one execution of the real mir_eval code imported from the working "
+                            "tree (explored directly, not a model of it); traces_validated_against_impl counts the "
+                            "states in which an independent reference model's prediction was compared with that "
+                            "execution (0 for pure invariant / two-execution relation checks, which have no separate "
+                            "model); known_findings_hit lists states attributed to findings in known_findings.json"),
+            "mir_eval_path": _mir_eval_path(),
             "phase": self.phase,
             "nproc": NPROC,
         }
@@ -346,6 +352,14 @@ class Run(object):
             json.dump(sanitize(jsonable(ev)), f, indent=1, sort_keys=True, allow_nan=False)
         os.replace(tmp, path)
         _validate_evidence(path)
+
+
+def _mir_eval_path():
+    try:
+        import mir_eval
+        return os.path.dirname(os.path.realpath(mir_eval.__file__))
+    except Exception:
+        return "?"
 
 
 def _validate_evidence(path):
